@@ -22,6 +22,37 @@ CHECKS = {
  "C04": ("E1-leaf", "exploration",
          "All sentinel combinations x garbage in exactly one binding, one-limb block hashes, direct assignment of the dummy flag, equality-hint overrides; full sentinel with garbage as accepting control.",
          "DESIGN.md §4 C04", E1_NOTE, "metamorphic attack generation + witness fuzzing"),
+
+ "C06": ("E1-wrapper", "exploration",
+         "Wrapper-only private-batch circuit (the repo's own constraint builder over free child public inputs) evaluated on generated vectors of leaf statements for N in 1..8 (16/32 in thorough), N=1 exhaustive and N=2 gridded over a reduced slot domain; on every accepted case all 21N+8 public inputs are compared with an independent ~60-line reference aggregate.",
+         "DESIGN.md §4 C06", E1_NOTE + " The wrapper-only circuit is the repo's build_private_batch_constraints without the recursive verifier gadgets; C14/C36 tie it to the full recursive circuit.", "model-based differential testing on generated inputs (reference aggregate vs circuit evaluation)"),
+ "C07": ("E1-wrapper", "exploration",
+         "Both directions of the iff on every generated vector: circuit Sat <=> reference predicate (asset, block, fee, distinct real nullifiers, grouped sums < 2^32); metamorphic invariance of the verdict under slot permutation and dummy-content rewriting; disagreements confirmed by the real prover/verifier before being reported.",
+         "DESIGN.md §4 C07", E1_NOTE, "differential (reference predicate) + metamorphic testing on generated inputs"),
+ "C08": ("E1-wrapper", "exploration",
+         "Integer conservation computed from the child public inputs only (independent of the C06 model): sum of output slots == sum of real (o1+o2); each non-zero slot == per-account total over real slots; dummies with arbitrary amounts contribute nothing.",
+         "DESIGN.md §4 C08", E1_NOTE, "invariant checking on generated inputs"),
+ "C09": ("E1-wrapper", "exploration",
+         "Metamorphic relations on accepted batches: permuting (slot, preimage) pairs keeps header and nullifier region and reorders non-zero exit groups to first-occurrence order; hidden slots all-zero; rewriting dummy contents changes nothing.",
+         "DESIGN.md §4 C09", E1_NOTE, "metamorphic testing on generated inputs"),
+ "C10": ("E1-wrapper", "exploration",
+         "Single-generator hint sweeps (every equality flag/inverse, canonical 32-bit split incl. the p-alias, bit decompositions, comparator bits) on accepted and rejected batches of the private and public wrapper circuits and on the less-than and sort gadget circuits: accepted => every satisfying alternative has identical public inputs; rejected => no alternative satisfies; Sat candidates confirmed by the real prover.",
+         "DESIGN.md §4 C10", E1_NOTE + " Coordinated lies across >= 3 independent hint generators are out of reach.", "witness fuzzing (hint-override sweeps) with gate-constraint oracle"),
+ "C12": ("E1-wrapper", "exploration",
+         "Wrapper-only public-batch circuit on generated vectors of inner statements for (M,N) up to (8,8) (larger in thorough), (2,1)/(2,2) gridded: accepted => public inputs equal the reference forwarding (address, first-real header, 2NM, per-inner slots then nullifiers, dummy inners zeroed).",
+         "DESIGN.md §4 C12", E1_NOTE, "model-based differential testing on generated inputs"),
+ "C13": ("E1-wrapper", "exploration",
+         "Sat <=> real inners share (block hash, asset, fee), both directions, confirmed by the real prover; verdict invariant under rewriting slot contents, nullifiers, block numbers and every field of dummy inners.",
+         "DESIGN.md §4 C13", E1_NOTE, "differential + metamorphic testing on generated inputs"),
+ "C30": ("E1-gadget", "exploration",
+         "One circuit per width 1..64 holding many is_const_less_than instances: widths 1..8 exhaustive over constants x elements, boundary/random values above, width 64 with constants >= p and aliasable elements; enforce_target_less_than_const over (n_log, bound) pairs; hint sweeps on all wide cases. Sat <=> element < 2^w and every Sat witness has the integer-correct outputs.",
+         "DESIGN.md §4 C30", E1_NOTE, "exhaustive small-domain + generated-input testing with integer oracle; witness fuzzing"),
+ "C31": ("E1-gadget", "exploration",
+         "sort_digests4 circuits for lengths 1..16 (..64 thorough): honest output == input sorted by [u64;4]; small domains exhaustive for lengths 2,3; hint sweeps (p-alias halves, comparator bits, equality flags) must not change the output.",
+         "DESIGN.md §4 C31", E1_NOTE, "generated-input testing with reference sort; witness fuzzing"),
+ "C36": ("E1-wrapper", "exploration",
+         "Chains: compatible real leaf statements split into M inner batches of capacity N, each through the private wrapper circuit, outputs fed verbatim into the public wrapper circuit; conservation of value per account and exact nullifier multiset computed from the leaf statements only; padding inners contribute zeros.",
+         "DESIGN.md §4 C36", E1_NOTE, "end-to-end invariant checking on generated inputs (two chained circuit evaluations)"),
 }
 
 NOT_YET = "not claimed yet: check not implemented in this round (design in DESIGN.md §4); will be claimed once its check is built and validated"
@@ -65,6 +96,12 @@ def main():
             "add_only": True,
         },
         "engines": [
+            {"name": "E1-wrapper", "path": "harness/src/engine/e1.rs, harness/src/pbatch.rs, harness/src/pubbatch.rs, harness/src/props/privprops.rs, harness/src/props/pubprops.rs",
+             "serves_properties": [p for p in ["C06", "C07", "C08", "C09", "C10", "C12", "C13", "C36"] if p in CHECKS],
+             "kind_free_text": "wrapper-only private/public batch circuits built by the repo's own constraint builders (cfg-gated re-exports) over free child public inputs; reference models; hint sweeps"},
+            {"name": "E1-gadget", "path": "harness/src/props/gadgetprops.rs",
+             "serves_properties": [p for p in ["C30", "C31", "C10"] if p in CHECKS],
+             "kind_free_text": "single-gadget circuits for common::gadgets evaluated through E1"},
             {"name": "E1-leaf", "path": "harness/src/engine/e1.rs, harness/src/engine/hints.rs, harness/src/leaf.rs, harness/src/props/leafdrv.rs",
              "serves_properties": [p for p in ["C01", "C02", "C03", "C04"] if p in CHECKS],
              "kind_free_text": "witness fuzzer: generator loop with replaced hint generators + native gate-constraint evaluation of the real leaf circuit, real prover/verifier as ground truth"},
